@@ -32,6 +32,10 @@ func genC13(g gen.G) C13Case {
 		// well-typed, parse-clean values: the exact value-token model applies to most of them
 		o.Cfg.Typed, o.Cfg.HalfTyped, o.Edits = true, 0, 0
 	}
+	if g.Chance(25) {
+		// value-centred world: rich any-expression attributes, nested values, resolving references
+		return C13Case{World: g.ValueWorld(gen.CfgOpts{Typed: true, Layout: g.Chance(30)})}
+	}
 	return C13Case{World: g.World(o)}
 }
 
